@@ -179,7 +179,7 @@ def eval_lab(case, tier):
         err = numpy.where(numpy.isfinite(err), err, numpy.inf)
         worst = max(worst, float(numpy.max(err)))
         fin = numpy.where(numpy.isfinite(got), got, 0.0)
-        obs[0] += float(numpy.sum(fin).real) * (1 + len(aux) % 7 + SIDES[tier].index(sides))
+        obs[0] += float(abs(numpy.sum(fin)))
         obs[1] += float(numpy.sum(numpy.abs(fin)))
         if not numpy.max(err) <= TOL:
             # the whole table of this side pattern has the opposite sign <=> sign defect
@@ -334,8 +334,8 @@ def sig_dev(a, b, factor=1.0):
 
 
 def esa_dephasing_signature(agg, pws, spec):
-    """Classifies a failure of the additivity clause with Lorentzian lines (J = 0, so exciton k is
-    molecule k-1 and a two-exciton state is a pair of molecules).  In an uncoupled aggregate the
+    """Classifies a failure of the additivity clause with Lorentzian lines (J = 0, so every exciton
+    is one molecule and a two-exciton state is a pair of molecules).  In an uncoupled aggregate the
     coherence between |e_a> and |f_ab> dephases like the transition of molecule b.  Returns
     `esa-dephasing=initial-molecule` iff every excited-state-absorption pathway carries in its
     third interval exactly the dephasing rate of molecule a (the one already excited) and at least
@@ -416,7 +416,7 @@ def eval_sys(case, tier):
     evf = numpy.array([complex(p.evolfac) for p in pws])
     sref = numpy.array([ISO.diagram_sign(p.sides) for p in pws])
     d4 = numpy.array([[agg.DD[int(p.transitions[k, 0]), int(p.transitions[k, 1]), :]
-                       for k in range(4)] for p in pws], dtype=float)        # (npw,4,3)
+                       for k in range(4)] for p in pws], dtype=float).reshape(npw, 4, 3)
     dscale = numpy.prod(numpy.sqrt(numpy.sum(d4 ** 2, axis=2)), axis=1) * rho0 * numpy.abs(evf)
     R, w = ISO.rule()
     P = numpy.einsum("ai,rij,pkj->rpka", POLV, R, d4)                        # e_a . R_r d_pk
